@@ -45,6 +45,7 @@ type Walker struct {
 	cells map[ssa.Value]WVal
 	Err   string
 	steps int
+	depth int // nesting of walked callees
 }
 
 // Eval returns the value of v at the current point of the walk. For a local
@@ -183,6 +184,49 @@ func (w *Walker) exec(ins ssa.Instruction, prev *ssa.BasicBlock) {
 			if acc != nil {
 				w.vals[x] = WInt(*acc)
 			}
+			return
+		}
+		// a call of a function with a body and one int/bool result (a helper the
+		// computation was extracted into): walk it with the arguments that are known
+		callee := x.Call.StaticCallee()
+		if callee == nil || callee.Blocks == nil || w.depth >= 4 || x.Call.Signature().Results().Len() != 1 {
+			return
+		}
+		bind := map[ssa.Value]WVal{}
+		args := x.Call.Args
+		for i, par := range callee.Params {
+			if i < len(args) {
+				if e, ok := w.Eval(args[i]); ok {
+					bind[par] = e
+				}
+			}
+		}
+		sub := &Walker{Fn: callee, depth: w.depth + 1}
+		sub.Oracle = func(v ssa.Value) (WVal, bool) {
+			if b, ok := bind[v]; ok {
+				return b, true
+			}
+			if w.Oracle != nil {
+				return w.Oracle(v)
+			}
+			return WVal{}, false
+		}
+		var res WVal
+		got := false
+		sub.OnInstr = func(ins ssa.Instruction, sw *Walker) bool {
+			if ret, ok := ins.(*ssa.Return); ok {
+				if len(ret.Results) == 1 {
+					if r, ok := sw.Eval(ret.Results[0]); ok {
+						res, got = r, true
+					}
+				}
+				return true
+			}
+			return false
+		}
+		sub.Run()
+		if got && sub.Err == "" {
+			w.vals[x] = res
 		}
 	}
 }
